@@ -17,21 +17,40 @@ LAYOUTS = {
     'useless-then-encryption': (('idpA', None), ('idpAenc', 'encryption')),
     'none': (),
     'empty-store': 'EMPTY',
+    # an entity with two roles: the role listed first has no signing key, the later one (attribute authority) has
+    'multirole:enc+aa-signing': (('idpAenc', 'encryption'), ('@aa', 'idpA', 'signing')),
+    'multirole:none+aa-signing': (('@aa', 'idpA', 'signing'),),
 }
+AA_ROLE = ('<md:AttributeAuthorityDescriptor protocolSupportEnumeration="urn:oasis:names:tc:SAML:2.0:protocol">%s'
+           '<md:AttributeService Binding="urn:oasis:names:tc:SAML:2.0:bindings:SOAP" Location="https://idpa.example/aa"/>'
+           '</md:AttributeAuthorityDescriptor>')
 ISSUERS = {'A': IDP_A, 'B': IDP_B, 'unknown': 'urn:vp:nobody', 'absent': None}
 KEYS = ('idpA', 'idpA2', 'idpAenc', 'idpB', 'mallory', 'idpAexp')
 KEYINFO = ('none', 'x509-actual', 'x509-idpA', 'rsakv-actual')
 ONLY = (True, None, False)
 
 
-def sp_for(layout, only):
-    k = (layout, only)
+def md_a(layout):
+    keys = [k for k in LAYOUTS[layout] if k[0] != '@aa']
+    x = world.idp_md(IDP_A, keys=tuple(keys))
+    aa = [k for k in LAYOUTS[layout] if k[0] == '@aa']
+    if aa:
+        x = x.replace('</md:EntityDescriptor>', AA_ROLE % ''.join(world.key_descriptor(n, u) for _t, n, u in aa) + '</md:EntityDescriptor>')
+    return x
+
+
+def sp_for(layout, only, backend=None):
+    k = (layout, only) if backend is None else (layout, only, backend)
     if k not in _sp:
         top = {} if only is None else {'only_use_keys_in_metadata': only}
+        if backend:
+            from vp import pyxmlsec_model
+            pyxmlsec_model.install()
+            top['crypto_backend'] = backend
         if LAYOUTS[layout] == 'EMPTY':
             md = []           # an SP whose metadata store has no source at all
         else:
-            md = [world.idp_md(IDP_A, keys=LAYOUTS[layout]), world.idp_md(IDP_B, keys=(('idpB', 'signing'),), sso=(('https://idpb.example/sso', world.BINDING_HTTP_REDIRECT),), slo=())]
+            md = [md_a(layout), world.idp_md(IDP_B, keys=(('idpB', 'signing'),), sso=(('https://idpb.example/sso', world.BINDING_HTTP_REDIRECT),), slo=())]
         _sp[k] = world.make_sp(TMP[0], md, top=top, want_response_signed=False)
     return _sp[k]
 
@@ -51,6 +70,14 @@ def cells(thorough):
     # encrypted advice assertion: its own Issuer decides, not the enclosing assertion's
     for inner_iss, key in itertools.product(('A', 'B', 'unknown'), KEYS[:5]):
         out.append(('one-signing', 'A', inner_iss, key, 'none', 'advice-enc'))
+    # (the multi-role layouts are part of LAYOUTS and so of the product above)
+    # response validly signed by its own issuer, carrying an assertion of issuer i2 signed with `key`
+    for layout, i1, i2, key in itertools.product(('one-signing', 'two-signing'), ('A', 'B'), ('A', 'B', 'unknown'), KEYS[:5]):
+        out.append((layout, i1, i2, key, 'none', 'both'))
+    # the alternative crypto backend (pyXMLSecurity, modelled in vp/pyxmlsec_model.py): same trust rules
+    for layout, iss, key, ki, what in itertools.product(('one-signing', 'none', 'encryption-only'), ('A', 'unknown'), ('idpA', 'mallory'),
+                                                        ('none', 'x509-actual'), ('response', 'assertion')):
+        out.append((layout, iss, iss, key, ki, what + '@XMLSecurity'))
     if thorough:
         # response and assertion claim different issuers
         for layout, i1, i2, key, what in itertools.product(('one-signing', 'none'), ('A', 'B'), ('A', 'B', 'unknown'), KEYS, ('response', 'assertion')):
@@ -67,7 +94,7 @@ def metadata_keys(layout, issuer):
     if LAYOUTS[layout] == 'EMPTY':
         return []
     if issuer == 'A':
-        return [n for n, use in LAYOUTS[layout] if use in ('signing', None)]
+        return [k[-2] for k in LAYOUTS[layout] if k[-1] in ('signing', None)]
     if issuer == 'B':
         return ['idpB']
     return []
@@ -78,7 +105,10 @@ def evaluate(cell):
     env.Clock.set(env.BASE)
     spec = keyinfo_spec(ki, key)
     kw = dict(resp=dict(issuer=ISSUERS[riss]), assertions=[dict(issuer=ISSUERS[aiss])])
-    if what.startswith('response'):
+    backend = 'XMLSecurity' if what.endswith('@XMLSecurity') else None
+    if what == 'both':
+        kw.update(sign_resp={'A': 'idpA', 'B': 'idpB'}[riss], sign_ass=key)
+    elif what.startswith('response'):
         kw.update(sign_resp=key, resp_keyinfo=spec)
     elif what.startswith('assertion'):
         kw.update(sign_ass=key, ass_keyinfo=spec)
@@ -91,7 +121,7 @@ def evaluate(cell):
     for only in ONLY:
         if prime:
             _sp.pop((layout, only), None)
-        sp = sp_for(layout, only)
+        sp = sp_for(layout, only, backend)
         if prime:
             try:
                 sp.metadata.certs(IDP_A, 'any', 'encryption')
@@ -128,7 +158,7 @@ def build_advice(inner_iss, key):
 
 def allowed(cell, only):
     layout, riss, aiss, key, ki, what = cell
-    iss = riss if what.startswith('response') else aiss
+    iss = riss if what.startswith('response') else aiss       # 'both': the assertion's signature is the one in question
     K = metadata_keys(layout, iss)
     if key in K:
         return True
@@ -168,7 +198,7 @@ def run(ctx):
         'level': 'exploration',
         'coverage': {
             'evaluations': n, 'distinct_nontrivial': len(nontriv), 'exhaustive': True, 'accepted': acc, 'vacuous': acc == 0,
-            'rule': 'complete product: metadata layout of IdP A (one/two signing certs, encryption-only, signing+encryption, use-less, none; IdP B always has its own) x claimed Issuer (A, B, unknown, absent) x actual signing key (A, A2, A-encryption, B, mallory) x embedded KeyInfo (none, X509 of signer, X509 of A, RSAKeyValue of signer) x signed element x only_use_keys_in_metadata (True, absent, False); non-trivial = cells where the statement forbids acceptance',
+            'rule': 'complete product: metadata layout of IdP A (one/two signing certs, encryption-only, signing+encryption, use-less, none; IdP B always has its own) (also a two-role entity whose first role has no signing key while its attribute-authority role has one) x claimed Issuer (A, B, unknown, absent) x actual signing key (A, A2, A-encryption, B, mallory) x embedded KeyInfo (none, X509 of signer, X509 of A, RSAKeyValue of signer) x signed element (response, assertion, and a response validly signed by its issuer carrying an assertion of another issuer) x only_use_keys_in_metadata (True, absent, False); a sub-product under crypto_backend XMLSecurity (pyXMLSecurity modelled by vp/pyxmlsec_model.py); non-trivial = cells where the statement forbids acceptance',
             'samples': [{'cell': list(cs[i0]), 'outcomes': [list(o) for o in res[i0]]}],
             'distinct_outcomes': len(hist), 'outcome_histogram': hist,
         },
